@@ -342,8 +342,13 @@ Record entry_ok (m mi pl e : Z) (mant_e minus_e plus_e scale kk : Z) : Prop := {
   eo_kk : -401 <= kk <= 401;
   eo_rel_mant : entry_rel mant_e m e scale kk;
   eo_rel_minus : entry_rel minus_e mi e scale kk;
-  eo_rel_plus : entry_rel plus_e pl e scale kk
+  eo_rel_plus : entry_rel plus_e pl e scale kk;
+  eo_low : scale <= mant_e + plus_e
 }.
+
+Lemma bumped_le : forall (incl : bool) S M P,
+  (if incl then S <=? M + P else S <? M + P) = true -> S <= M + P.
+Proof. intros incl S M P H. destruct incl; [apply Z.leb_le in H|apply Z.ltb_lt in H]; lia. Qed.
 
 Local Opaque dragon_loop.
 
@@ -358,6 +363,8 @@ Proof.
   pose proof (bitlen_upper (m + pl) 55 ltac:(lia) ltac:(lia)) as Hnb2.
   destruct (estimate_upper (m + pl) e (bitlen (m + pl - 1)) ltac:(lia) Hxn Hnb1 ltac:(lia))
     as [Hk [F1 [F2 [F3 F4]]]].
+  destruct (estimate_lower (m + pl) e (bitlen (m + pl - 1)) ltac:(lia) (bitlen_lower (m + pl) ltac:(lia)) Hnb1 ltac:(lia))
+    as [G1 [G2 G4]].
   unfold dragon_shortest. unfold estimate_scaling_factor. fold (est (bitlen (m + pl - 1) + e)).
   set (k0 := est (bitlen (m + pl - 1) + e)) in *.
   clearbody k0. clear Hxn Hnb1 Hnb2 Hx.
@@ -370,7 +377,8 @@ Proof.
     destruct (k0 <? 0) eqn:Ek; [apply Z.ltb_lt in Ek|apply Z.ltb_ge in Ek|apply Z.ltb_lt in Ek|apply Z.ltb_ge in Ek];
     cbv beta iota.
   - (* A *)
-    specialize (F1 Ee Ek). clear F2 F3 F4.
+    specialize (F1 Ee Ek). clear F2 F3 F4. specialize (G1 Ee Ek). clear G2 G4.
+    replace ((m + pl) * 10 ^ (- k0) * 10) with ((m * 10 ^ (- k0) + pl * 10 ^ (- k0)) * 10) in G1 by ring.
     pose proof (H2 (- e) ltac:(lia)) as Hs. pose proof (H10 (- k0) ltac:(lia)) as Ht.
     pose proof (pow2_lt_bound (- e) ltac:(lia)) as Hsb.
     pose proof (pre_rel_A m e k0 Ee Ek HeK HkT) as Rm. pose proof (pre_rel_A mi e k0 Ee Ek HeK HkT) as Rmi.
@@ -384,12 +392,13 @@ Proof.
     clear ES EM EP EMI H10 H2 Ht.
     destruct (if incl then S <=? M + P else S <? M + P) eqn:Eb; cbv beta iota.
     + exists M, MI, P, S, (k0 + 1). split; [unfold finish; reflexivity|].
+      assert (Hbump := bumped_le _ _ _ _ Eb).
       constructor; try lia; now apply pre_to_entry_bump.
     + destruct (entry_not_bumped incl M P S ltac:(lia) HP Eb) as [Hm1 Hp1].
       exists (M * 10), (MI * 10), (P * 10), S, k0. split; [unfold finish; reflexivity|].
       constructor; try lia; now apply pre_to_entry_nobump.
   - (* B *)
-    specialize (F2 Ee Ek). clear F1 F3 F4.
+    specialize (F2 Ee Ek). clear F1 F3 F4. specialize (G2 Ee Ek). clear G1 G4.
     pose proof (H2 (- e) ltac:(lia)) as Hs. pose proof (H10 k0 ltac:(lia)) as Ht.
     pose proof (prod_lt_bound (- e) k0 ltac:(lia) ltac:(lia)) as Hsb.
     assert (HS : 0 < 2 ^ (- e) * 10 ^ k0) by (apply Z.mul_pos_pos; lia).
@@ -398,12 +407,13 @@ Proof.
     remember (2 ^ (- e) * 10 ^ k0) as S eqn:ES. clear ES H10 H2 Ht Hs.
     destruct (if incl then S <=? m + pl else S <? m + pl) eqn:Eb; cbv beta iota.
     + exists m, mi, pl, S, (k0 + 1). split; [unfold finish; reflexivity|].
+      assert (Hbump := bumped_le _ _ _ _ Eb).
       constructor; try lia; now apply pre_to_entry_bump.
     + destruct (entry_not_bumped incl m pl S ltac:(lia) Hpl Eb) as [Hm1 Hp1].
       exists (m * 10), (mi * 10), (pl * 10), S, k0. split; [unfold finish; reflexivity|].
       constructor; try lia; now apply pre_to_entry_nobump.
   - (* C *)
-    specialize (F3 Ee Ek). clear F1 F2 F4.
+    specialize (F3 Ee Ek). clear F1 F2 F4 G1 G2 G4.
     pose proof (H2 e ltac:(lia)) as Hs. pose proof (H10 (- k0) ltac:(lia)) as Ht.
     pose proof (pre_rel_C m e k0 Ee Ek HkT) as Rm. pose proof (pre_rel_C mi e k0 Ee Ek HkT) as Rmi.
     pose proof (pre_rel_C pl e k0 Ee Ek HkT) as Rpl.
@@ -416,12 +426,14 @@ Proof.
     remember (mi * 2 ^ e * 10 ^ (- k0)) as MI eqn:EMI. clear EM EP EMI H10 H2 Ht Hs.
     destruct (if incl then 1 <=? M + P else 1 <? M + P) eqn:Eb; cbv beta iota.
     + exists M, MI, P, 1, (k0 + 1). split; [unfold finish; reflexivity|].
+      assert (Hbump := bumped_le _ _ _ _ Eb).
       constructor; try lia; now apply pre_to_entry_bump.
     + destruct (entry_not_bumped incl M P 1 ltac:(lia) HP Eb) as [Hm1 Hp1].
       exists (M * 10), (MI * 10), (P * 10), 1, k0. split; [unfold finish; reflexivity|].
       constructor; try lia; now apply pre_to_entry_nobump.
   - (* D *)
-    specialize (F4 Ee Ek). clear F1 F2 F3.
+    specialize (F4 Ee Ek). clear F1 F2 F3. specialize (G4 Ee Ek). clear G1 G2.
+    replace ((m + pl) * 2 ^ e * 10) with ((m * 2 ^ e + pl * 2 ^ e) * 10) in G4 by ring.
     pose proof (H2 e ltac:(lia)) as Hs. pose proof (H10 k0 ltac:(lia)) as Ht.
     pose proof (pow10_lt_bound k0 ltac:(lia)) as Hsb.
     pose proof (pre_rel_D m e k0 Ee Ek) as Rm. pose proof (pre_rel_D mi e k0 Ee Ek) as Rmi.
@@ -435,6 +447,7 @@ Proof.
     remember (mi * 2 ^ e) as MI eqn:EMI. clear ES EM EP EMI H10 H2 Hs E1.
     destruct (if incl then S <=? M + P else S <? M + P) eqn:Eb; cbv beta iota.
     + exists M, MI, P, S, (k0 + 1). split; [unfold finish; reflexivity|].
+      assert (Hbump := bumped_le _ _ _ _ Eb).
       constructor; try lia; now apply pre_to_entry_bump.
     + destruct (entry_not_bumped incl M P S ltac:(lia) HP Eb) as [Hm1 Hp1].
       exists (M * 10), (MI * 10), (P * 10), S, k0. split; [unfold finish; reflexivity|].
@@ -489,3 +502,127 @@ Proof.
 Qed.
 
 Local Transparent dragon_loop.
+
+(** * Dragon4 stops after at most 18 rounds: at most 19 digits *)
+Lemma dragon_loop_fuel_mono : forall f g mant minus plus scale incl acc r,
+  dragon_loop f mant minus plus scale incl acc = Some r ->
+  dragon_loop (f + g) mant minus plus scale incl acc = Some r.
+Proof.
+  induction f as [|f IH]; intros g mant minus plus scale incl acc r H; cbn [dragon_loop] in H; [discriminate|].
+  cbn [Nat.add dragon_loop].
+  destruct ((if incl then mant mod scale <=? minus else mant mod scale <? minus)
+            || (if incl then scale <=? mant mod scale + plus else scale <? mant mod scale + plus)); [exact H|].
+  now apply IH.
+Qed.
+
+Local Opaque dragon_loop.
+
+Lemma two55_lt_pow10 : 2 ^ 55 < 10 ^ 17.
+Proof. reflexivity. Qed.
+
+Lemma entry_short : forall m mi pl e mant_e minus_e plus_e scale kk incl,
+  2 <= m -> m + pl <= 2 ^ 55 -> 0 < pl ->
+  entry_ok m mi pl e mant_e minus_e plus_e scale kk ->
+  exists r, dragon_loop 18 mant_e minus_e plus_e scale incl [] = Some r /\
+            dragon_loop dragon_fuel mant_e minus_e plus_e scale incl [] = Some r.
+Proof.
+  intros m mi pl e mant_e minus_e plus_e scale kk incl Hm Hx Hpl Hok.
+  destruct Hok as [Hs Hme Hmie Hple Hfb Hkk Rm Rmi Rpl Hlow].
+  (* plus_e / (mant_e + plus_e) = pl / (m + pl) *)
+  assert (Hcross : plus_e * (m + pl) = pl * (mant_e + plus_e)).
+  { unfold entry_rel in Rm, Rpl.
+    pose proof (pow2_pos KS ltac:(unfold KS; lia)) as H2. pose proof (pow10_pos (kk - 1 + KT) ltac:(unfold KT; lia)) as H10.
+    set (C := 2 ^ KS * 10 ^ (kk - 1 + KT)).
+    assert (HC : 0 < C) by (unfold C; nia).
+    set (R := 2 ^ (e + KS) * 10 ^ KT * scale).
+    assert (E1 : mant_e * C = m * R) by (unfold C, R; rewrite !Z.mul_assoc; rewrite <- Rm; ring).
+    assert (E2 : plus_e * C = pl * R) by (unfold C, R; rewrite !Z.mul_assoc; rewrite <- Rpl; ring).
+    apply (Z.mul_reg_r _ _ C ltac:(lia)). nia. }
+  assert (Hb : scale < plus_e * 10 ^ (Z.of_nat 18 - 1)).
+  { change (Z.of_nat 18 - 1) with 17. pose proof two55_lt_pow10 as H55.
+    assert (scale * pl <= plus_e * 2 ^ 55) by nia.
+    assert (scale <= scale * pl) by nia. nia. }
+  pose proof (dragon_loop_terminates 18 mant_e minus_e plus_e scale incl [] Hs ltac:(lia) Hple ltac:(lia) Hb) as Ht.
+  destruct (dragon_loop 18 mant_e minus_e plus_e scale incl []) as [r|] eqn:El; [|contradiction].
+  exists r. split; [reflexivity|].
+  change dragon_fuel with (18 + 1082)%nat. now apply dragon_loop_fuel_mono.
+Qed.
+
+Theorem dragon_digit_count : forall m mi pl e incl ds k,
+  2 <= m -> m + pl <= 2 ^ 55 -> 0 < mi -> 0 < pl -> -1077 <= e <= 970 ->
+  dragon_shortest m mi pl e incl = Some (ds, k) ->
+  (length ds <= 19)%nat /\ -421 <= k - Z.of_nat (length ds).
+Proof.
+  intros m mi pl e incl ds k Hm Hx Hmi Hpl He Hds.
+  destruct (dragon_entry m mi pl e incl Hm Hx Hmi Hpl He) as [mant_e [minus_e [plus_e [scale [kk [Heq Hok]]]]]].
+  rewrite Heq in Hds.
+  destruct (entry_short m mi pl e mant_e minus_e plus_e scale kk incl Hm Hx Hpl Hok) as [[[[racc rem] down] up] [H18 Hfull]].
+  destruct Hok as [Hs Hme Hmie Hple Hfb Hkk Rm Rmi Rpl Hlow].
+  unfold finish in Hds. rewrite Hfull in Hds.
+  pose proof (dragon_loop_len _ _ _ _ _ _ _ _ _ _ _ H18) as Hlen. cbn [length] in Hlen.
+  destruct (dragon_loop_digits _ _ _ _ _ _ _ _ _ _ _ Hs Hme (Forall_nil _) H18) as [Hdig _].
+  destruct (up && (negb down || (scale <=? 2 * rem))).
+  - destruct (round_up_rev racc) as [r' c] eqn:Er.
+    destruct (round_up_rev_val racc r' c Hdig Er) as [Hl' _].
+    destruct c; injection Hds as <- <-; cbn [length]; rewrite rev_length; lia.
+  - injection Hds as <- <-. rewrite rev_length. lia.
+Qed.
+
+Local Transparent dragon_loop.
+
+(** * subnormals: the printed decimal never hits an end point of the interval *)
+Lemma odd_pow5 : forall t, 0 <= t -> Z.odd (5 ^ t) = true.
+Proof.
+  intros t Ht. destruct (Z.eq_dec t 0) as [->|Hn]; [reflexivity|]. rewrite Z.odd_pow by lia. reflexivity.
+Qed.
+
+(** an odd multiple of 10^t is not a multiple of 2^c for t < c *)
+Lemma odd_pow10_ne : forall a t D c, Z.odd a = true -> 0 <= t < c -> a * 10 ^ t <> D * 2 ^ c.
+Proof.
+  intros a t D c Ha Ht E.
+  change 10 with (2 * 5) in E. rewrite Z.pow_mul_l in E.
+  replace c with (t + (c - t)) in E by lia. rewrite Z.pow_add_r in E by lia.
+  pose proof (pow2_pos t ltac:(lia)) as H2.
+  assert (E' : a * 5 ^ t = D * 2 ^ (c - t)).
+  { apply (Z.mul_reg_r _ _ (2 ^ t) ltac:(lia)).
+    transitivity (a * (2 ^ t * 5 ^ t)); [ring|]. rewrite E. ring. }
+  assert (Hodd : Z.odd (a * 5 ^ t) = true) by (rewrite Z.odd_mul, Ha, (odd_pow5 t ltac:(lia)); reflexivity).
+  rewrite E' in Hodd. replace (c - t) with (Z.succ (c - t - 1)) in Hodd by lia.
+  rewrite Z.pow_succ_r in Hodd by lia. rewrite Z.odd_mul, Z.odd_mul in Hodd. cbn in Hodd.
+  rewrite andb_false_r in Hodd. discriminate.
+Qed.
+
+(** with fewer than 1075 fraction digits the bounds of a subnormal's interval are not attained *)
+Lemma subnormal_strict : forall T D j, 1 <= T < two52 -> -1075 < j -> 0 < D ->
+  within true (2 * T - 1) (-1075) (2 * T + 1) (-1075) (fst (dec_ratio D j)) (snd (dec_ratio D j)) ->
+  within false (2 * T - 1) (-1075) (2 * T + 1) (-1075) (fst (dec_ratio D j)) (snd (dec_ratio D j)).
+Proof.
+  intros T D j HT Hj HD H. unfold within in *. destruct H as [Hlo Hhi].
+  unfold rle, rge, rlt, rgt in *. change (0 <=? -1075) with false in *. cbv iota in *.
+  change (- -1075) with 1075 in *.
+  unfold dec_ratio in *. destruct (0 <=? j) eqn:Ej; [apply Z.leb_le in Ej|apply Z.leb_gt in Ej]; cbn [fst snd] in *.
+  - (* an integer >= 1 is far above every subnormal *)
+    exfalso. pose proof (pow10_pos j Ej). unfold two52 in HT.
+    assert (9007199254740992 < 2 ^ 1075) by (apply Z.ltb_lt; vm_compute; reflexivity).
+    assert (1 * 2 ^ 1075 <= D * 10 ^ j * 2 ^ 1075) by (apply Z.mul_le_mono_nonneg_r; [apply Z.pow_nonneg; lia|nia]).
+    lia.
+  - assert (Ho1 : Z.odd (2 * T - 1) = true).
+    { rewrite Z.odd_sub, Z.odd_mul. reflexivity. }
+    assert (Ho2 : Z.odd (2 * T + 1) = true).
+    { rewrite Z.odd_add, Z.odd_mul. reflexivity. }
+    pose proof (odd_pow10_ne (2 * T - 1) (- j) D 1075 Ho1 ltac:(lia)) as N1.
+    pose proof (odd_pow10_ne (2 * T + 1) (- j) D 1075 Ho2 ltac:(lia)) as N2.
+    split; lia.
+Qed.
+
+(** the reader on subnormals with the bounds excluded: no parity condition *)
+Lemma f64_of_ratio_subnormal_strict : forall b n d, 0 < b < two63 -> f64_expf b = 0 -> 0 < n -> 0 < d ->
+  within false (2 * f64_frac b - 1) (-1075) (2 * f64_frac b + 1) (-1075) n d ->
+  f64_of_ratio n d = b.
+Proof.
+  intros b n d Hb He Hn Hd Hw.
+  destruct (bits_decomp b ltac:(lia)) as [Hbits [_ Hf]].
+  rewrite Hbits, He. replace (0 * two52 + f64_frac b) with (f64_frac b) by lia.
+  apply (class_subnormal false); try assumption; [|discriminate].
+  rewrite He in Hbits. lia.
+Qed.
